@@ -13,13 +13,13 @@ from ..ctx import Raised
 PROP = 'C19'
 HERE = os.path.dirname(os.path.dirname(os.path.dirname(os.path.abspath(__file__))))
 RULE = ('cases = TT tensors / TT matrices of order 1..6, f32/f64/c64/c128, obtained from {core lists, TT-SVD of a dense array (rank list with numpy integers), '
-        'slicing (non-contiguous core views), transposition, conj, rounding, arithmetic} x {save+load into a fresh directory, clone, detach (tracked and '
+        'slicing (non-contiguous core views), transposition, conj, rounding, arithmetic} x {save+load into a fresh directory (in half of the cases the file is rewritten with another object before the loaded one is compared), clone, detach (tracked and '
         'untracked), cpu, to(dtype), numpy}. Oracle: loaded object has identical kind/N/M/R/dtype and torch.equal cores; clone has equal cores and disjoint '
         'storage ranges, and after an in-place resizing set_core on either of the two the other keeps its metadata, cores and dense value; the others have the same dense value (converted dtype for to()). distinct = (source, op, structure, dtype); all non-trivial.')
 ASSUMPTIONS = ['the unpickling policy is whatever the installed torch enforces (weights_only default) - that is the environment users have']
 REQUIRED_REACH = ['_extras:save', '_extras:load', '_tt_base:TT.clone', '_tt_base:TT.detach', '_tt_base:TT.cpu', '_tt_base:TT.to', '_tt_base:TT.numpy']
 REQUIRED_COUNTS = {'op:saveload': 1, 'op:clone': 1, 'clone_independence_histories': 20, 'copy_after_inplace_write_histories': 50, 'op:detach': 1, 'op:cpu': 1, 'op:to': 1, 'op:numpy': 1, 'source:svd': 1, 'source:slice': 1, 'source:transpose': 1,
-                   'source:round': 1, 'source:buffer': 5, 'loaded_cores_bit_identical': 10}
+                   'source:round': 1, 'source:buffer': 5, 'loaded_cores_bit_identical': 10, 'file_rewritten_after_load': 5}
 SOURCES = ['cores', 'svd', 'svd_ttm', 'slice', 'transpose', 'conj', 'round', 'sum', 'buffer', 'signed-zeros']
 OPS = ['saveload', 'clone', 'detach', 'detach_tracked', 'cpu', 'to', 'numpy']
 DTS = ['f64', 'f32', 'c128', 'c64']
@@ -128,6 +128,15 @@ def run_case(case, ctx):
                 ctx.viol(key + '/clause=save-raises:%s' % r.type, '%s: save raised %r' % (what, r))
                 return
             y = ctx.lib('load', torchtt.load, path)
+            if case['seed'] % 2 == 0 and isinstance(y, torchtt.TT):
+                # the file is written again under the same name (another object of the same structure, then junk appended): the object loaded before is a copy
+                # in memory and must not follow the file
+                ctx.count('file_rewritten_after_load')
+                other = torchtt.TT([(c.detach() * -3 + 1).clone() for c in x.cores])
+                ctx.lib('save', torchtt.save, other, path)
+                y_again = ctx.lib('load', torchtt.load, path)
+                if isinstance(y_again, torchtt.TT) and not all(_bits_identical((c.detach() * -3 + 1), b) for c, b in zip(x.cores, y_again.cores)):
+                    ctx.viol(key + '/clause=second-load-of-rewritten-file-differs', what)
         finally:
             shutil.rmtree(tmp, ignore_errors=True)
         if isinstance(y, Raised):
